@@ -30,6 +30,12 @@ CHECKS = {
         "assumptions": ["encoding/json, encoding/xml, gogo/protobuf and apache thrift define the supported value domain of their codecs (valid UTF-8, finite floats for JSON, XML-valid characters)"],
         "runs": [
             {"pkg": "pure", "run": "^TestC11(RoundTrip|Garbage)$", "quick": 4000, "thorough": 200000, "shards_thorough": 8},
+            {"pkg": "pure", "run": "^$", "fuzz": "^FuzzDecodeJSON$", "fuzztime": "60s", "fuzzworkers": 4, "only": "thorough", "rapid": False, "timeout_thorough": 900},
+            {"pkg": "pure", "run": "^$", "fuzz": "^FuzzDecodeXML$", "fuzztime": "60s", "fuzzworkers": 4, "only": "thorough", "rapid": False, "timeout_thorough": 900},
+            {"pkg": "pure", "run": "^$", "fuzz": "^FuzzDecodeForm$", "fuzztime": "60s", "fuzzworkers": 4, "only": "thorough", "rapid": False, "timeout_thorough": 900},
+            {"pkg": "pure", "run": "^$", "fuzz": "^FuzzDecodePlain$", "fuzztime": "60s", "fuzzworkers": 4, "only": "thorough", "rapid": False, "timeout_thorough": 900},
+            {"pkg": "pure", "run": "^$", "fuzz": "^FuzzDecodeProtobuf$", "fuzztime": "60s", "fuzzworkers": 4, "only": "thorough", "rapid": False, "timeout_thorough": 900},
+            {"pkg": "pure", "run": "^$", "fuzz": "^FuzzDecodeThrift$", "fuzztime": "60s", "fuzzworkers": 4, "only": "thorough", "rapid": False, "timeout_thorough": 900},
         ],
     },
     "C12": {
@@ -103,6 +109,11 @@ CHECKS = {
             {"pkg": "thriftw", "run": "^TestC06Thrift(Binary|Struct)Unpack$", "quick": 1000, "thorough": 30000, "shards_thorough": 4},
             {"pkg": "thriftw", "run": "^TestC06Thrift(KnownProbes|TruncationSweep)$", "quick": 1, "thorough": 1, "rapid": False},
             {"pkg": "core", "run": "^TestC06Session$", "quick": 800, "thorough": 40000, "shards_thorough": 8},
+            {"pkg": "pure", "run": "^TestC06BodyCodecAlloc$", "quick": 1500, "thorough": 60000, "shards_thorough": 4},
+            {"pkg": "wire", "run": "^$", "fuzz": "^FuzzUnpackRaw$", "fuzztime": "90s", "fuzzworkers": 4, "only": "thorough", "rapid": False, "timeout_thorough": 900},
+            {"pkg": "wire", "run": "^$", "fuzz": "^FuzzUnpackJSON$", "fuzztime": "90s", "fuzzworkers": 4, "only": "thorough", "rapid": False, "timeout_thorough": 900},
+            {"pkg": "wire", "run": "^$", "fuzz": "^FuzzUnpackPB$", "fuzztime": "90s", "fuzzworkers": 4, "only": "thorough", "rapid": False, "timeout_thorough": 900},
+            {"pkg": "wire", "run": "^$", "fuzz": "^FuzzUnpackHTTP$", "fuzztime": "90s", "fuzzworkers": 4, "only": "thorough", "rapid": False, "timeout_thorough": 900},
         ],
     },
     "C07": {
